@@ -2,6 +2,7 @@ package main
 
 import (
 	"fmt"
+	"os"
 	"reflect"
 	"sort"
 	"strings"
@@ -459,7 +460,17 @@ func c16(run *ev.Run, tier string) {
 		}
 	}
 
-	// ---------------- part 4: passphrase precedence, all 16 combinations
+	// ---------------- part 4: passphrase precedence, all 16 combinations. The
+	// process environment says something else all along: only the
+	// caller-supplied mapping may be consulted.
+	for _, p := range passVars {
+		os.Setenv(p, "from-the-process-environment")
+	}
+	defer func() {
+		for _, p := range passVars {
+			os.Unsetenv(p)
+		}
+	}()
 	for mask := 0; mask < 16; mask++ {
 		env := map[string]string{}
 		for i, p := range passVars {
